@@ -250,4 +250,292 @@ theorem parsePcfTypes_pcfText (p : Pcf) (h : PcfWf p) : parsePcfTypes (pcfText p
   rw [pcfHead_ends_nl, List.append_assoc, List.singleton_append, h2, ← h1, splitNl_types p h,
     parsePcfLines_skip _ _ pcfHead_no_event_type, parsePcfLines_blocks]
 
+/-! ### which (type, value) pairs a structure labels, and what every `pcf_add_*` keeps -/
+
+/-- the structure has a type `id` with a label for `v` -/
+def HasVal (p : Pcf) (id : Nat) (v : Int) : Prop := ∃ t ∈ p, t.id = id ∧ ∃ l, (v, l) ∈ t.values
+
+/-- nothing labelled in `p` is lost in `p'` -/
+def Ext (p p' : Pcf) : Prop := ∀ id v, HasVal p id v → HasVal p' id v
+
+theorem Ext.refl (p : Pcf) : Ext p p := fun _ _ h => h
+theorem Ext.trans {p q r : Pcf} (h1 : Ext p q) (h2 : Ext q r) : Ext p r := fun id v h => h2 id v (h1 id v h)
+
+/-- the values the text labels for a type are those of the structure -/
+theorem hasVal_text {p : Pcf} (hwf : PcfWf p) {id : Nat} {v : Int} (h : HasVal p id v) :
+    v ∈ pcfValuesOf (pcfText p) id := by
+  obtain ⟨t, ht, hid, l, hl⟩ := h
+  unfold pcfValuesOf
+  rw [parsePcfTypes_pcfText p hwf]
+  simp only [List.mem_flatMap, List.mem_filter, List.mem_map]
+  refine ⟨(t.id, t.label, t.values), ⟨?_, by simp [hid]⟩, (v, l), hl, rfl⟩
+  exact List.mem_map.mpr ⟨t, ht, rfl⟩
+
+theorem pcfAddType_ext {p p' : Pcf} {id : Nat} {label : Text} (h : pcfAddType p id label = .ok p') : Ext p p' := by
+  unfold pcfAddType at h
+  split at h
+  · cases h
+  · split at h
+    · cases h
+    · cases h
+      rintro id v ⟨t, ht, r⟩
+      exact ⟨t, List.mem_append_left _ ht, r⟩
+
+theorem pcfAddValue_ext {p p' : Pcf} {id : Nat} {v : Int} {label : Text} (h : pcfAddValue p id v label = .ok p') :
+    Ext p p' ∧ HasVal p' id v := by
+  unfold pcfAddValue at h
+  split at h
+  · cases h
+  · rename_i t hfind
+    split at h
+    · cases h
+    · split at h
+      · cases h
+      · cases h
+        constructor
+        · rintro id0 v0 ⟨t0, ht0, hid0, l0, hl0⟩
+          refine ⟨_, List.mem_map.mpr ⟨t0, ht0, rfl⟩, ?_, l0, ?_⟩
+          · split <;> exact hid0
+          · split
+            · exact List.mem_append_left _ hl0
+            · exact hl0
+        · have hmem := List.mem_of_find?_eq_some hfind
+          have hid := List.find?_some hfind
+          refine ⟨_, List.mem_map.mpr ⟨t, hmem, rfl⟩, ?_, label, ?_⟩
+          · rw [if_pos hid]; simpa using hid
+          · rw [if_pos hid]; simp
+
+theorem pcfAddValues_ext {id : Nat} : ∀ (vs : List (Int × Text)) {p p' : Pcf},
+    pcfAddValues p id vs = .ok p' → Ext p p' ∧ ∀ v ∈ vs, HasVal p' id v.1 := by
+  intro vs
+  induction vs with
+  | nil => intro p p' h; simp only [pcfAddValues, Except.ok.injEq] at h; subst h; exact ⟨Ext.refl _, by simp⟩
+  | cons v r ih =>
+    intro p p' h
+    obtain ⟨v, l⟩ := v
+    simp only [pcfAddValues] at h
+    cases ha : pcfAddValue p id v l with
+    | error e => rw [ha] at h; cases h
+    | ok p1 =>
+      rw [ha] at h
+      obtain ⟨e1, hv⟩ := pcfAddValue_ext ha
+      obtain ⟨e2, hr⟩ := ih h
+      refine ⟨e1.trans e2, ?_⟩
+      intro x hx
+      rcases List.mem_cons.mp hx with rfl | hx
+      · exact e2 _ _ hv
+      · exact hr x hx
+
+theorem pcfCreateType_ext {p p' : Pcf} {type mode : Nat} {pre : String} {vals : List (Int × String)}
+    (h : pcfCreateType p type mode pre vals = .ok p') :
+    Ext p p' ∧ ∀ v ∈ vals, HasVal p' type v.1 := by
+  unfold pcfCreateType at h
+  simp only at h
+  split at h
+  · cases h
+  · cases ha : pcfAddType p type (pre.toList ++ [' '] ++ (pcfSuffix mode).toList) with
+    | error e => rw [ha] at h; cases h
+    | ok p1 =>
+      rw [ha] at h
+      obtain ⟨e2, hv⟩ := pcfAddValues_ext _ h
+      refine ⟨(pcfAddType_ext ha).trans e2, ?_⟩
+      intro v hv'
+      exact hv (v.1, v.2.toList) (List.mem_map.mpr ⟨v, hv', rfl⟩)
+
+theorem pcfInitModel_ext (types tracks : List Nat) (info : PcfInfo) : ∀ (is : List Nat) {p p' : Pcf},
+    pcfInitModel types tracks info is p = .ok p' →
+    Ext p p' ∧ ∀ i ∈ is, ∀ v ∈ info.labels.getD i [], HasVal p' (types.getD i 0) v.1 := by
+  intro is
+  induction is with
+  | nil => intro p p' h; simp only [pcfInitModel, Except.ok.injEq] at h; subst h; exact ⟨Ext.refl _, by simp⟩
+  | cons i r ih =>
+    intro p p' h
+    simp only [pcfInitModel] at h
+    cases ha : pcfCreateType p (types.getD i 0) (tracks.getD i 0) (info.prefixes.getD i "") (info.labels.getD i []) with
+    | error e => rw [ha] at h; cases h
+    | ok p1 =>
+      rw [ha] at h
+      obtain ⟨e1, hv⟩ := pcfCreateType_ext ha
+      obtain ⟨e2, hr⟩ := ih h
+      refine ⟨e1.trans e2, ?_⟩
+      intro j hj
+      rcases List.mem_cons.mp hj with rfl | hj
+      · intro v hv'; exact e2 _ _ (hv v hv')
+      · exact hr j hj
+
+theorem pcfInitMarks_ext : ∀ (ms : List MarkType) {p p' : Pcf}, pcfInitMarks ms p = .ok p' → Ext p p' := by
+  intro ms
+  induction ms with
+  | nil => intro p p' h; simp only [pcfInitMarks, Except.ok.injEq] at h; subst h; exact Ext.refl _
+  | cons t r ih =>
+    intro p p' h
+    simp only [pcfInitMarks] at h
+    cases ha : pcfAddType p (prvOvniMark + t.type.toNat) t.title.toList with
+    | error e => rw [ha] at h; cases h
+    | ok p1 =>
+      rw [ha] at h
+      simp only at h
+      cases hb : pcfAddValues p1 (prvOvniMark + t.type.toNat) (t.labels.map fun v => (v.1, v.2.toList)) with
+      | error e => rw [hb] at h; cases h
+      | ok p2 =>
+        rw [hb] at h
+        exact ((pcfAddType_ext ha).trans (pcfAddValues_ext _ hb).1).trans (ih h)
+
+/-- the models: nothing is lost, and every value of the label table of channel
+    `i` of an enabled model is labelled under the type of that channel -/
+theorem pcfInitModels_ext (cpu : Bool) (marks : List MarkType) : ∀ (ss : List ModelSpec) {p p' : Pcf},
+    pcfInitModels cpu marks ss p = .ok p' →
+    Ext p p' ∧ ∀ s ∈ ss, s.char ≠ markGroup → ∀ info, pcfInfo s.char = some info → ∀ i < s.nch,
+      ∀ v ∈ info.labels.getD i [], HasVal p' ((if cpu then info.cpuType else s.pvtType).getD i 0) v.1 := by
+  intro ss
+  induction ss with
+  | nil => intro p p' h; simp only [pcfInitModels, Except.ok.injEq] at h; subst h; exact ⟨Ext.refl _, by simp⟩
+  | cons s r ih =>
+    intro p p' h
+    simp only [pcfInitModels] at h
+    by_cases hm : s.char = markGroup
+    · rw [if_pos hm] at h
+      cases ha : pcfInitMarks marks p with
+      | error e => rw [ha] at h; cases h
+      | ok p1 =>
+        rw [ha] at h
+        obtain ⟨e2, hr⟩ := ih h
+        refine ⟨(pcfInitMarks_ext _ ha).trans e2, ?_⟩
+        intro s' hs'
+        rcases List.mem_cons.mp hs' with rfl | hs'
+        · intro hne; exact absurd hm hne
+        · exact hr s' hs'
+    · rw [if_neg hm] at h
+      cases hi : pcfInfo s.char with
+      | none => rw [hi] at h; cases h
+      | some info =>
+        rw [hi] at h
+        simp only at h
+        cases ha : pcfInitModel (if cpu then info.cpuType else s.pvtType) (if cpu then s.cpuTrack else s.thTrack)
+            info (List.range s.nch) p with
+        | error e => rw [ha] at h; cases h
+        | ok p1 =>
+          rw [ha] at h
+          obtain ⟨e1, hv⟩ := pcfInitModel_ext _ _ _ _ ha
+          obtain ⟨e2, hr⟩ := ih h
+          refine ⟨e1.trans e2, ?_⟩
+          intro s' hs'
+          rcases List.mem_cons.mp hs' with rfl | hs'
+          · intro _ info' hinfo' i hi' v hv'
+            rw [hi] at hinfo'
+            cases hinfo'
+            exact e2 _ _ (hv i (List.mem_range.mpr hi') v hv')
+          · exact hr s' hs'
+
+theorem pcfSysTypes_ext : ∀ (l : List (Nat × String × List (Int × String))) {p p' : Pcf},
+    pcfSysTypes l p = .ok p' → Ext p p' ∧ ∀ x ∈ l, ∀ v ∈ x.2.2, HasVal p' x.1 v.1 := by
+  intro l
+  induction l with
+  | nil => intro p p' h; simp only [pcfSysTypes, Except.ok.injEq] at h; subst h; exact ⟨Ext.refl _, by simp⟩
+  | cons x r ih =>
+    intro p p' h
+    obtain ⟨ty, name, vals⟩ := x
+    simp only [pcfSysTypes] at h
+    cases ha : pcfAddType p ty name.toList with
+    | error e => rw [ha] at h; cases h
+    | ok p1 =>
+      rw [ha] at h
+      simp only at h
+      cases hb : pcfAddValues p1 ty (vals.map fun v => (v.1, v.2.toList)) with
+      | error e => rw [hb] at h; cases h
+      | ok p2 =>
+        rw [hb] at h
+        obtain ⟨e1, hv⟩ := pcfAddValues_ext _ hb
+        obtain ⟨e2, hr⟩ := ih h
+        refine ⟨((pcfAddType_ext ha).trans e1).trans e2, ?_⟩
+        intro y hy
+        rcases List.mem_cons.mp hy with rfl | hy
+        · intro v hv'
+          exact e2 _ _ (hv (v.1, v.2.toList) (List.mem_map.mpr ⟨v, hv', rfl⟩))
+        · exact hr y hy
+
+theorem pcfTaskTypes_ext {id : Nat} : ∀ (ts : List (Int × Text)) {p p' : Pcf},
+    pcfTaskTypes p id ts = .ok p' → Ext p p' := by
+  intro ts
+  induction ts with
+  | nil => intro p p' h; simp only [pcfTaskTypes, Except.ok.injEq] at h; subst h; exact Ext.refl _
+  | cons t r ih =>
+    intro p p' h
+    obtain ⟨gid, label⟩ := t
+    simp only [pcfTaskTypes] at h
+    split at h
+    · split at h
+      · exact ih h
+      · cases h
+    · cases ha : pcfAddValue p id gid label with
+      | error e => rw [ha] at h; cases h
+      | ok p1 => rw [ha] at h; exact (pcfAddValue_ext ha).1.trans (ih h)
+
+theorem pcfFinishTasks_go_ext {ty : Nat} : ∀ (ps : List (List (Int × Text))) {p p' : Pcf},
+    pcfFinishTasks.go ty ps p = .ok p' → Ext p p' := by
+  intro ps
+  induction ps with
+  | nil => intro p p' h; simp only [pcfFinishTasks.go, Except.ok.injEq] at h; subst h; exact Ext.refl _
+  | cons ts r ih =>
+    intro p p' h
+    simp only [pcfFinishTasks.go] at h
+    cases ha : pcfTaskTypes p ty ts with
+    | error e => rw [ha] at h; cases h
+    | ok p1 => rw [ha] at h; exact (pcfTaskTypes_ext _ ha).trans (ih h)
+
+theorem pcfFinishTasks_ext : ∀ (l : List (Nat × List (List (Int × Text)))) {p p' : Pcf},
+    pcfFinishTasks l p = .ok p' → Ext p p' := by
+  intro l
+  induction l with
+  | nil => intro p p' h; simp only [pcfFinishTasks, Except.ok.injEq] at h; subst h; exact Ext.refl _
+  | cons x r ih =>
+    intro p p' h
+    obtain ⟨ch, procs⟩ := x
+    simp only [pcfFinishTasks] at h
+    cases ht : taskTypeOf ch with
+    | none => rw [ht] at h; cases h
+    | some ty =>
+      rw [ht] at h
+      simp only at h
+      cases ha : pcfFinishTasks.go ty procs p with
+      | error e => rw [ha] at h; cases h
+      | ok p1 => rw [ha] at h; exact (pcfFinishTasks_go_ext _ ha).trans (ih h)
+
+/-- **What thread.pcf labels**: the values of the three thread types
+    (`threadPcfTypes`: the six thread states), `gindex + 1` of every CPU under
+    the affinity type, and for every enabled model every value of the label
+    table of each of its channels under the type of that channel. -/
+theorem threadPcf_hasVal {e : Emu} {n : Names} {p : Pcf} (h : threadPcf e n = .ok p) :
+    (∀ x ∈ threadPcfTypes, ∀ v ∈ x.2.2, HasVal p x.1 v.1) ∧
+    (∀ g < e.cpus.length, HasVal p prvThreadCpu ((g : Int) + 1)) ∧
+    (∀ s ∈ connectOrder e.enabled e.extra, s.char ≠ markGroup → ∀ info, pcfInfo s.char = some info → ∀ i < s.nch,
+      ∀ v ∈ info.labels.getD i [], HasVal p (s.pvtType.getD i 0) v.1) := by
+  unfold threadPcf at h
+  cases h1 : pcfSysTypes threadPcfTypes [] with
+  | error er => rw [h1] at h; cases h
+  | ok p1 =>
+    rw [h1] at h
+    simp only at h
+    cases h2 : pcfAddValues p1 prvThreadCpu ((cpuNames e n).mapIdx fun g nm => ((g : Int) + 1, nm)) with
+    | error er => rw [h2] at h; cases h
+    | ok p2 =>
+      rw [h2] at h
+      simp only at h
+      cases h3 : pcfInitModels false n.marks (connectOrder e.enabled e.extra) p2 with
+      | error er => rw [h3] at h; cases h
+      | ok p3 =>
+        rw [h3] at h
+        obtain ⟨_, a1⟩ := pcfSysTypes_ext _ h1
+        obtain ⟨e2, a2⟩ := pcfAddValues_ext _ h2
+        obtain ⟨e3, a3⟩ := pcfInitModels_ext _ _ _ h3
+        have e4 := pcfFinishTasks_ext _ h
+        refine ⟨fun x hx v hv => e4 _ _ (e3 _ _ (e2 _ _ (a1 x hx v hv))), ?_, ?_⟩
+        · intro g hg
+          have hlen : g < (cpuNames e n).length := by simpa [cpuNames] using hg
+          refine e4 _ _ (e3 _ _ (a2 (((g : Int) + 1), (cpuNames e n)[g]) ?_))
+          exact List.mem_mapIdx.mpr ⟨g, hlen, rfl⟩
+        · intro s hs hne info hinfo i hi v hv
+          have := a3 s hs hne info hinfo i hi v hv
+          exact e4 _ _ this
+
 end Ovni.Emu.PvText
